@@ -297,6 +297,7 @@ def random_walks(chk, cls, dt, rec, refs, rng, nwalks, length):
         meta = {'cls': cls.name, 'dt': dt, 'init': at, 'script': script}
         rec.add(snap_event(tid, cls, p), meta)
         history = [D.attrs_of(p, cls)]
+        computed = False        # has this object computed a PSD yet (tracked from the operations, public API only)
         for _s in range(length if fixed is None else len(fixed)):
             if fixed is not None:
                 op, arg = fixed[_s]
@@ -305,13 +306,15 @@ def random_walks(chk, cls, dt, rec, refs, rng, nwalks, length):
                 # one-sided is not a layout of complex data (rejected: C06); get_converted_psd is a conversion of a
                 # *stored* PSD (C06): it is only exercised once a PSD has been computed (possibly out of date since)
                 while (op in ('SetSides', 'GetConverted') and arg == 'onesided' and p.datatype == 'complex') or \
-                      (op == 'GetConverted' and getattr(p, '_Spectrum__psd', 0) is None):
+                      (op == 'GetConverted' and not computed):
                     op, arg = rng.choice(ops)
             script.append([op, arg])
             ev = op_event(tid, cls, p, op, arg, refs, history)
             rec.add(ev, dict(meta, upto=len(script)))
             if ev['err'] or 'broken' in ev['post']:
                 break
+            if op in ('Call', 'ReadPsd'):
+                computed = True
             history.append(ev['post'])
         chk.traces += 1
     D.NUMPY_SCALARS[0] = False
